@@ -111,7 +111,9 @@ def gen_op(ch, label, scratch, idx, allow_roundtrip=False):
             p = ch.pick(label + ".ep", [1965, 7070])
             ents.append({"key": f"{h}:{p}", "hostname": h, "port": p,
                          "fingerprint": fx.fp(CERTS[ch.choose(label + ".ec", len(CERTS))]),
-                         "first_seen": f"2023-0{1 + j}-01T00:00:00+00:00",
+                         # some pins were stamped by a clock that ran ahead of this one
+                         "first_seen": (f"2023-0{1 + j}-01T00:00:00+00:00" if ch.choose(label + ".future", 4)
+                                        else f"209{j}-06-01T12:00:00+00:00"),
                          "last_seen": "2024-01-02T00:00:00+00:00"})
         seen_keys = set()
         uniq = []
@@ -527,6 +529,23 @@ def run_one(ch):
                             "after a normally returning operation the table differs from the "
                             "abstract model's result",
                             table={repr(k): v[:15] for k, v in got.items()}, **ctx0)
+            if target["kind"] == "import" and not target.get("cli"):
+                # a host the import ADDED carries the first-seen value of the file (that is what
+                # makes export -> import a faithful copy, whatever the two clocks say)
+                full_now = table(work)
+                seen_keys = set()
+                for e in target.get("entries", []):
+                    hk = (e.get("hostname"), e.get("port"))
+                    if hk in seen_keys or hk in before_full or hk not in full_now or \
+                            not isinstance(e.get("first_seen"), str):
+                        seen_keys.add(hk)
+                        continue
+                    seen_keys.add(hk)
+                    if full_now[hk][1] != e["first_seen"]:
+                        res.violate("C12/import-does-not-reproduce-first-seen",
+                                    f"imported host {hk!r}: first_seen in the file {e['first_seen']!r}, in "
+                                    f"the store {full_now[hk][1]!r}", **ctx0)
+                        break
             # 'after' for the fault runs is what the complete operation really produces
             allowed = [before, got]
         else:
